@@ -9,22 +9,36 @@ Three parties answer every generated history, operation by operation and query b
 implementation != PySpec on an observable  -> ctx.violation (failing input = the history up to that operation)
 implementation != Lean model only          -> ctx.disagree  (correspondence broken)
 plus direct oracles for the named claims (direction, once per role, removed node gone, node metadata survives
-add_edge, listing order irrelevant, label equivariance)."""
+add_edge, listing order irrelevant, label equivariance).
+
+Strengthening round c: (1) aliasing OUT - after the answers were compared, the harness empties and refills every
+list / dict / set a query returned and asks again (`scribble_out`); (2) every node set / node list / hyperedge list is
+handed over in every collection type the unchanged code accepts, in every entry point (`Builder`); (3) a new equal label
+object for every call, universes with ints above the small-int cache, run-time strings, tuple labels (`Labeling.lab`);
+(4) aliasing IN - the harness changes the objects it handed to a call after the call (`scribble_in`); (5) filter x up_to
+x metadata/asdict combinations incl. falsy `order=0, size=0` given together."""
 import contextlib
 import io
 import json
+import zlib
 from fractions import Fraction
 
 import hgxv
 
 RULE = ("random histories of 1-40 public mutating calls (constructor with/without edge_list/weights/metadata, add_node(s), "
         "add_edge(s), remove_edge(s), remove_node(s) with both keep_edges, set_weight, the nine metadata setters, clear, "
-        "copy into a second object that is then mutated independently) over 3-6 labels (ints, shifted ints, strings -> rank), "
-        "hyperedges with disjoint non-empty sides of total size 2-5 drawn mostly from a pool of 2-5 favourites re-listed in "
-        "shuffled node order (bare-node sides for integer labels), weights k/4, weighted and unweighted, 10-15% malformed calls "
-        "(absent node/edge, weight on unweighted, short lists, bare node outside add_edge, order and size together, missing "
-        "attribute); after EVERY operation every query of DESIGN 3b is compared for every node of the universe + one absent "
-        "node and filters none / random size / random order / both (all sizes 0-6, orders 0-5 at the end of the history). "
+        "copy into a second object that is then mutated independently) over 3-6 labels of six order-isomorphic universes "
+        "(0..U, shifted ints, strings incl. '' and two-letter ones, ints above the small-int cache, run-time strings, tuple "
+        "labels; a NEW equal label object for every single call), hyperedges with disjoint non-empty sides of total size 2-5 "
+        "drawn mostly from a pool of 2-5 favourites re-listed in shuffled node order; every node set / node list / hyperedge "
+        "list is handed over in a collection type chosen per argument from tuple, list, set, frozenset, generator, dict keys, "
+        "dict, range, numpy array (bare-node sides for integer labels), in every entry point; weights k/4, weighted and "
+        "unweighted, 10-15% malformed calls (absent node/edge, weight on unweighted, short lists, bare node outside add_edge, "
+        "order and size together incl. falsy values, missing attribute, node listed twice in remove_nodes); after EVERY "
+        "operation (a) the caller changes the objects it handed to the call, (b) every query of DESIGN 3b is compared for every "
+        "node of the universe + one absent node and filters none / random size / random order / both (all sizes 0-6, orders "
+        "0-5 at the end of the history) x up_to x metadata/asdict flags, (c) the caller empties and refills every list / dict / "
+        "set the queries RETURNED and asks again. "
         "distinct = canonical rank-level text of the history; non-trivial = at least one accepted removal AND one insertion of a "
         "(source,target) pair that is or was present; plus the EXHAUSTIVE set of all histories of <= 2 (quick) / <= 3 (thorough) "
         "calls over an 18-call alphabet on 3 nodes, weighted and unweighted (bounded exploration supporting the tie)")
@@ -33,9 +47,18 @@ ASSUMPTIONS = ["hyperedges have disjoint, duplicate-free, non-empty source and t
                "weights are multiples of 1/4 (exact in binary64), metadata values come from a fixed JSON-like pool",
                "batched calls (add_edges, remove_edges, remove_nodes, add_nodes) that raise keep the effects of the elements "
                "before the failing one - modelled as the Python loops behave, the property does not speak about atomicity",
-               "exception classes are not compared (raised / not raised); listings are compared as multisets"]
+               "exception classes are not compared (raised / not raised); listings are compared as multisets",
+               "a collection stands for the set / sequence of its elements; a bare string or a bare tuple label as a whole "
+               "side is ambiguous in Python (it IS an iterable of characters / components) and is not generated",
+               "the metadata dictionary of ONE node / hyperedge / hypergraph is stored and returned by reference (library "
+               "idiom, unchanged code): whether a change the caller makes to such a dictionary afterwards is seen by the "
+               "object is left open, but it must not be seen in any other entry, in another object, or twice; every other "
+               "returned or handed-in list / dict / set belongs to the caller alone",
+               "get_edge_list / get_adj_dict / expose_data_structures hand out the tables on purpose (paired with setters) "
+               "and are outside the property"]
 TRUSTED = ["harness/c02.py renderers and PySpec (independent reference of the abstract object)",
-           "copy.deepcopy gives an independent object (exercised: both objects are queried after every later operation)"]
+           "copy.deepcopy gives an independent object (exercised: both objects are queried after every later operation)",
+           "Python's iteration protocol: tuple(x) / sorted(x) of any of the collection types yields its elements"]
 BUDGET_S = {"quick": 75, "thorough": 1500}
 
 # ------------------------------------------------------------------------------------------------------------
@@ -59,23 +82,43 @@ def py_meta(md):
     return {ATTR[a]: py_val(v) for a, v in md}
 
 
+INT_KINDS = ("int", "shift", "big")         # label kinds for which a bare node can stand for a one-element side
+STABLE_HASH_KINDS = ("int", "shift", "big")  # iteration order of a set of such labels does not depend on PYTHONHASHSEED
+KINDS = ("int", "shift", "str", "big", "rstr", "tup")
+
+
 class Labeling:
+    """rank <-> label. `lab(r)` builds a NEW, equal label object on every call wherever CPython allows it (ints above the
+    small-int cache, strings of length >= 2 joined at run time, tuples): code that compares labels with `is` instead of
+    `==`, or keeps a label object and compares identities later, is then visible."""
+
     def __init__(self, kind, U):
         self.kind = kind
         if kind == "int":
             self.labels = list(range(U + 1))
         elif kind == "shift":
             self.labels = [10 + 7 * i for i in range(U + 1)]
+        elif kind == "big":
+            self.labels = [10 ** 6 + 257 * i for i in range(U + 1)]
+        elif kind == "rstr":
+            self.labels = ["n%02d" % (3 * i) for i in range(U + 1)]
+        elif kind == "tup":
+            self.labels = [(i // 2, "xy"[i % 2]) for i in range(U + 1)]
         else:
             self.labels = ["", "a", "ab", "b", "ba", "c", "d", "e"][:U + 1]
         assert self.labels == sorted(self.labels)
         self.rank = {x: i for i, x in enumerate(self.labels)}
 
     def lab(self, r):
-        return self.labels[r]
+        x = self.labels[r]
+        if isinstance(x, int):
+            return int(str(x))
+        if isinstance(x, str):
+            return "".join(list(x))
+        return tuple(list(x))
 
     def side(self, s):
-        return self.labels[s] if isinstance(s, int) else tuple(self.labels[r] for r in s)
+        return self.lab(s) if isinstance(s, int) else tuple(self.lab(r) for r in s)
 
     def edge(self, e):
         return (self.side(e[0]), self.side(e[1]))
@@ -157,11 +200,15 @@ def show_filt(f):
     return "a" if f is None else "b" if f == "b" else f"{f[0]}{f[1]}"
 
 
-def filt_kwargs(f):
+BOTH = [(1, 2), (0, 0), (0, 1), (2, 0), (3, 4), (0, 2)]     # (order, size) given together: always rejected, also when falsy
+
+
+def filt_kwargs(f, bsel=0):
     if f is None:
         return {}
     if f == "b":
-        return {"order": 1, "size": 2}
+        o, z = BOTH[bsel % len(BOTH)]
+        return {"order": o, "size": z}
     return {"size": f[1]} if f[0] == "s" else {"order": f[1]}
 
 
@@ -183,20 +230,30 @@ def call(fn, *a, **k):
         return False, None
 
 
-def digest_impl(h, lab, U, filters):
+def digest_impl(h, lab, U, filters, bsel=0, rets=None):
+    with contextlib.redirect_stdout(io.StringIO()):
+        return _digest_impl(h, lab, U, filters, bsel, rets)
+
+
+def _digest_impl(h, lab, U, filters, bsel, rets):
+    """every query of the property on the real object, rendered rank-level. `rets` (optional list) receives
+    (label, returned object) of every answered query so that the caller can scribble on the returned containers."""
     from hypergraphx.measures.directed import in_degree, out_degree, in_degree_sequence, out_degree_sequence
     V = ImplView(lab)
     d = {}
 
     def put(label, fn, render, *a, **k):
-        ok, r = call(fn, *a, **k)
-        if not ok:
+        try:
+            r = fn(*a, **k)
+        except Exception:
             d[label] = "rej"
             return
         try:
             d[label] = render(r)
         except Exception:
             d[label] = "?" + repr(r)[:80]
+        if rets is not None:
+            rets.append((label, r))
 
     def r_bool(b):
         return "1" if b is True else "0" if b is False else "?" + repr(b)[:60]
@@ -204,63 +261,72 @@ def digest_impl(h, lab, U, filters):
     def r_int(x):
         return str(x) if isinstance(x, int) and not isinstance(x, bool) else "?" + repr(x)
 
-    put("nodes", h.get_nodes, V.nodes)
-    put("nodesmeta", h.get_nodes, lambda r: j("|", "-", sorted(V.n(x) + "=" + r_meta_py(m) for x, m in r.items())), metadata=True)
+    def r_list(f):
+        return lambda r: f(r) if isinstance(r, list) else "?" + repr(r)[:80]
+
+    def r_dict(f):
+        return lambda r: f(r) if isinstance(r, dict) else "?" + repr(r)[:80]
+
+    put("nodes", h.get_nodes, r_list(V.nodes))
+    put("nodesmeta", h.get_nodes, r_dict(lambda r: j("|", "-", sorted(V.n(x) + "=" + r_meta_py(m) for x, m in r.items()))), metadata=True)
     put("numnodes", h.num_nodes, r_int)
     put("numedges", h.num_edges, r_int)
-    put("sources", h.get_sources, lambda r: j(";", "-", sorted(V.side(x) for x in r)))
-    put("targets", h.get_targets, lambda r: j(";", "-", sorted(V.side(x) for x in r)))
-    put("sizes", h.get_sizes, lambda r: j(",", "-", [str(x) for x in sorted(r)]))
-    put("orders", h.get_orders, lambda r: j(",", "-", sorted(str(x) for x in r)))
+    put("sources", h.get_sources, r_list(lambda r: j(";", "-", sorted(V.side(x) for x in r))))
+    put("targets", h.get_targets, r_list(lambda r: j(";", "-", sorted(V.side(x) for x in r))))
+    put("sizes", h.get_sizes, r_list(lambda r: j(",", "-", [str(x) for x in sorted(r)])))
+    put("orders", h.get_orders, r_list(lambda r: j(",", "-", sorted(str(x) for x in r))))
     put("distsizes", h.distribution_sizes, lambda r: r_pairs(r.items()))
     put("maxsize", h.max_size, r_int)
     put("maxorder", h.max_order, r_int)
     put("uniform", h.is_uniform, r_bool)
     put("weighted", h.is_weighted, r_bool)
-    put("allnm", h.get_all_nodes_metadata, lambda r: j("|", "-", sorted(r_meta_py(m) for m in r)))
-    put("allem", h.get_all_edges_metadata, lambda r: j("|", "-", sorted(r_meta_py(m) for m in r.values())))
+    put("allnm", h.get_all_nodes_metadata, lambda r: j("|", "-", sorted(r_meta_py(m) for m in (r.values() if isinstance(r, dict) else r))))
+    put("allem", h.get_all_edges_metadata, lambda r: j("|", "-", sorted(r_meta_py(m) for m in (r.values() if isinstance(r, dict) else r))))
     put("hmeta", h.get_hypergraph_metadata, r_meta_py)
     for f in filters:
         t = show_filt(f)
-        kw = filt_kwargs(f)
+        kw = filt_kwargs(f, bsel)
         for up in (0, 1):
-            put(f"edges.{t}.{up}", h.get_edges, V.keys, up_to=bool(up), **kw)
-            put(f"emeta.{t}.{up}", h.get_edges, lambda r: j(";", "-", sorted(V.key(e) + "=" + r_meta_py(m) for e, m in r.items())),
+            put(f"edges.{t}.{up}", h.get_edges, r_list(V.keys), up_to=bool(up), **kw)
+            put(f"emeta.{t}.{up}", h.get_edges, r_dict(lambda r: j(";", "-", sorted(V.key(e) + "=" + r_meta_py(m) for e, m in r.items()))),
                 up_to=bool(up), metadata=True, **kw)
-            put(f"wdict.{t}.{up}", h.get_weights, lambda r: j(";", "-", sorted(V.key(e) + "=" + r_w(w) for e, w in r.items())),
+            put(f"wdict.{t}.{up}", h.get_weights, r_dict(lambda r: j(";", "-", sorted(V.key(e) + "=" + r_w(w) for e, w in r.items()))),
                 up_to=bool(up), asdict=True, **kw)
-        put(f"wlist.{t}.0", h.get_weights, lambda r: j(",", "-", sorted(r_w(w) for w in r)), **kw)
+            put(f"wlist.{t}.{up}", h.get_weights, r_list(lambda r: j(",", "-", sorted(r_w(w) for w in r))),
+                **({"up_to": True} if up else {}), **kw)
         put(f"degseq.{t}", h.degree_sequence, lambda r: r_pairs((V.n(x), dg) for x, dg in r.items()), **kw)
         put(f"degdist.{t}", h.degree_distribution, lambda r: r_pairs(r.items()), **kw)
         put(f"indegseq.{t}", in_degree_sequence, lambda r: r_pairs((V.n(x), dg) for x, dg in r.items()), h, **kw)
         put(f"outdegseq.{t}", out_degree_sequence, lambda r: r_pairs((V.n(x), dg) for x, dg in r.items()), h, **kw)
         put(f"isolated.{t}", h.isolated_nodes, V.nodes, **kw)
     for rnk in range(U + 1):
-        x = lab.lab(rnk)
-        put(f"has.{rnk}", h.check_node, r_bool, x)
-        put(f"nm.{rnk}", h.get_node_metadata, r_meta_py, x)
+        put(f"has.{rnk}", h.check_node, r_bool, lab.lab(rnk))                 # a new label object for every single call
+        put(f"nm.{rnk}", h.get_node_metadata, r_meta_py, lab.lab(rnk))
         for f in filters:
             t = f"{rnk}.{show_filt(f)}"
-            kw = filt_kwargs(f)
-            put("src." + t, h.get_source_edges, V.keys, x, **kw)
-            put("tgt." + t, h.get_target_edges, V.keys, x, **kw)
-            put("inc." + t, h.get_incident_edges, V.keys, x, **kw)
-            put("nb." + t, h.get_neighbors, lambda r: V.nodes(r) if isinstance(r, (set, frozenset)) else "?" + repr(r), x, **kw)
-            put("deg." + t, h.degree, r_int, x, **kw)
-            put("indeg." + t, in_degree, r_int, h, x, **kw)
-            put("outdeg." + t, out_degree, r_int, h, x, **kw)
-            put("isiso." + t, h.is_isolated, r_bool, x, **kw)
+            kw = filt_kwargs(f, bsel + rnk)
+            put("src." + t, h.get_source_edges, r_list(V.keys), lab.lab(rnk), **kw)
+            put("tgt." + t, h.get_target_edges, r_list(V.keys), lab.lab(rnk), **kw)
+            put("inc." + t, h.get_incident_edges, r_list(V.keys), lab.lab(rnk), **kw)
+            put("nb." + t, h.get_neighbors, lambda r: V.nodes(r) if isinstance(r, (set, frozenset)) else "?" + repr(r), lab.lab(rnk), **kw)
+            put("deg." + t, h.degree, r_int, lab.lab(rnk), **kw)
+            put("indeg." + t, in_degree, r_int, h, lab.lab(rnk), **kw)
+            put("outdeg." + t, out_degree, r_int, h, lab.lab(rnk), **kw)
+            put("isiso." + t, h.is_isolated, r_bool, lab.lab(rnk), **kw)
     return d
 
 
-def qe_impl(h, lab, e):
-    V = ImplView(lab)
-    pe = lab.edge(e)
+def qe_impl(h, b, e, rets=None):
+    """check_edge | get_weight | get_edge_metadata of one hyperedge; `b` (a Builder) writes the hyperedge in a new
+    container type for each of the three calls"""
+    V = ImplView(b.lab)
     out = []
-    for fn, render in ((h.check_edge, lambda b: "1" if b is True else "0" if b is False else "?" + repr(b)),
+    for fn, render in ((h.check_edge, lambda x: "1" if x is True else "0" if x is False else "?" + repr(x)),
                        (h.get_weight, r_w), (h.get_edge_metadata, r_meta_py)):
-        ok, r = call(fn, pe)
+        ok, r = call(fn, b.edge(e))
         out.append(render(r) if ok else "rej")
+        if ok and rets is not None and fn == h.get_edge_metadata:
+            rets.append(("qe", r, b.ekey(e)))
     return "|".join(out)
 
 
@@ -464,7 +530,7 @@ class PySpec:
             if f == "b":
                 for lbl in ("edges", "emeta", "wdict"):
                     d[f"{lbl}.b.0"] = d[f"{lbl}.b.1"] = "rej"
-                for lbl in ("wlist.b.0", "degseq.b", "degdist.b", "isolated.b"):
+                for lbl in ("wlist.b.0", "wlist.b.1", "degseq.b", "degdist.b", "isolated.b"):
                     d[lbl] = "rej"
                 # dict comprehension over the nodes: raises only if there is a node
                 d["indegseq.b"] = d["outdegseq.b"] = "rej" if self.nodes else "-"
@@ -475,8 +541,7 @@ class PySpec:
                 d[f"edges.{t}.{up}"] = j(";", "-", sorted(rk(k) for k in sel))
                 d[f"emeta.{t}.{up}"] = j(";", "-", sorted(rk(k) + "=" + r_meta_tok(self.edges[k][1]) for k in sel))
                 d[f"wdict.{t}.{up}"] = j(";", "-", sorted(rk(k) + "=" + str(self.edges[k][0]) for k in sel))
-                if not up:
-                    d[f"wlist.{t}.0"] = j(",", "-", sorted(str(self.edges[k][0]) for k in sel))
+                d[f"wlist.{t}.{up}"] = j(",", "-", sorted(str(self.edges[k][0]) for k in sel))
             sel = [k for k in E if m is None or sz[k] == m]
             indeg = {n: sum(1 for k in sel if n in k[0]) for n in self.nodes}
             outdeg = {n: sum(1 for k in sel if n in k[1]) for n in self.nodes}
@@ -636,86 +701,352 @@ def py_w(w):
 py_w.flip = 0
 
 
-def apply_impl(objs, lab, c):
-    """returns 'ok' | 'rej'"""
+# ---- argument containers, and what the caller does with its own objects after a call -------------------------
+
+JUNK = "__written_by_the_CALLER_into_its_own_object_after_the_call__"
+
+SIDE_STYLES = ("tuple", "list", "set", "frozenset", "gen", "keys", "dict", "range", "array", "frozenset", "list", "tuple")
+NODES_STYLES = ("list", "tuple", "gen", "set", "frozenset", "keys", "range", "array", "list")
+SEQ_STYLES = ("list", "tuple")
+EDGES_STYLES = ("list", "tuple", "gen", "list")
+
+
+STYLE_COUNT = {}
+ALIAS_COUNT = {"caller_changes_to_handed_in_objects": 0, "caller_changes_to_returned_objects": 0, "metadata_dictionaries_probed": 0}
+
+
+class Builder:
+    """builds the arguments of ONE call. Every collection the unchanged code accepts as a node set / node list / hyperedge
+    list is used: tuple, list, set, frozenset, generator, dict keys view, dict, range, numpy array (the container type of
+    argument number j of the call with wire text `text` is crc32(salt|text|j): replays and shrunk histories repeat it;
+    salt None = tuples and lists only). Remembers the mutable objects it handed over so that the caller can change them
+    after the call."""
+
+    def __init__(self, lab, salt, text, sl=None):
+        self.lab, self.salt, self.text, self.sl, self.j = lab, salt, text, sl, 0
+        self.outer = []       # mutable collections handed over (lists, sets, dicts used as collections)
+        self.mds = []         # (entry, dict): metadata dictionaries handed over, with the entry they describe
+
+    def pick(self, options):
+        self.j += 1
+        if self.salt is None:
+            return options[0]
+        return options[zlib.crc32(f"{self.salt}|{self.text}|{self.j}".encode()) % len(options)]
+
+    def _container(self, style, labs):
+        kind = self.lab.kind
+        if style == "range":
+            v = sorted(labs) if kind in INT_KINDS and labs else []
+            step = (v[1] - v[0]) if len(v) > 1 else 1
+            if v and step > 0 and all(y - x == step for x, y in zip(v, v[1:])):
+                STYLE_COUNT["range"] = STYLE_COUNT.get("range", 0) + 1
+                return range(v[0], v[-1] + 1, step)
+            style = "tuple"
+        if style == "array":
+            if kind != "tup" and labs:
+                import numpy as np
+                STYLE_COUNT["array"] = STYLE_COUNT.get("array", 0) + 1
+                return np.array(labs)
+            style = "list"
+        STYLE_COUNT[style] = STYLE_COUNT.get(style, 0) + 1
+        if style == "tuple":
+            return tuple(labs)
+        if style == "frozenset":
+            return frozenset(labs)
+        if style == "gen":
+            return (x for x in labs)
+        if style == "set":
+            o = set(labs)
+        elif style in ("keys", "dict"):
+            o = {x: None for x in labs}
+        else:
+            o = list(labs)
+        self.outer.append(o)
+        return o.keys() if style == "keys" else o
+
+    def side(self, s):
+        if isinstance(s, int):
+            self.j += 1
+            return self.lab.lab(s)                      # a bare node
+        return self._container(self.pick(SIDE_STYLES), [self.lab.lab(r) for r in s])
+
+    def edge(self, e):
+        S, T = self.side(e[0]), self.side(e[1])
+        if self.pick(("tuple", "list")) == "list":
+            o = [S, T]
+            self.outer.append(o)
+            return o
+        return (S, T)
+
+    def ekey(self, e):
+        """the entry a hyperedge argument names: (slot, 'e', canonical key in labels)"""
+        S = [e[0]] if isinstance(e[0], int) else e[0]
+        T = [e[1]] if isinstance(e[1], int) else e[1]
+        return (self.sl, "e", (tuple(self.lab.labels[r] for r in sorted(S)), tuple(self.lab.labels[r] for r in sorted(T))))
+
+    def nkey(self, n):
+        return (self.sl, "n", self.lab.labels[n]) if 0 <= n < len(self.lab.labels) else None
+
+    def nodes(self, ranks):
+        """-> (collection, the ranks in the order in which the collection yields them)"""
+        style = self.pick(NODES_STYLES)
+        if style in ("set", "frozenset", "keys") and self.lab.kind not in STABLE_HASH_KINDS:
+            style = "list"
+        if any(not 0 <= r < len(self.lab.labels) for r in ranks):
+            style = "list"
+        o = self._container(style, [self.lab.lab(r) for r in ranks])
+        if style == "gen":
+            return o, list(ranks)
+        return o, [self.lab.rank[x] for x in o]
+
+    def _seq(self, style, items):
+        if style == "tuple":
+            return tuple(items)
+        if style == "gen":
+            return (x for x in items)
+        o = list(items)
+        self.outer.append(o)
+        return o
+
+    def edges(self, es, allow_gen):
+        style = self.pick(EDGES_STYLES if allow_gen else SEQ_STYLES)
+        return self._seq(style, [self.edge(e) for e in es])
+
+    def seq(self, items):
+        return self._seq(self.pick(SEQ_STYLES), items)
+
+    def meta(self, md, entry):
+        d = py_meta(md)
+        if d is not None:
+            self.mds.append((entry, d))
+        return d
+
+
+def wipe(o):
+    """what a caller may do with a collection that is its own: empty it and put something else in"""
+    try:
+        if isinstance(o, dict):
+            o.clear()
+            o[JUNK] = {JUNK: 1}
+        elif isinstance(o, list):
+            o.clear()
+            o.append(JUNK)
+        elif isinstance(o, set):
+            o.clear()
+            o.add(JUNK)
+    except Exception:
+        pass
+
+
+def sightings(objs):
+    """{junk key: [entries whose metadata shows it]} over all live objects; entry = (slot, 'n', node) | (slot, 'e', key) | (slot, 'h')"""
+    out = {}
+
+    def look(md, entry):
+        if isinstance(md, dict):
+            found = set()
+            for k, v in list(md.items()):
+                for x in [k] + (list(v) if isinstance(v, (list, dict)) else []):
+                    if isinstance(x, str) and x.startswith(JUNK):
+                        found.add(x)
+            for x in found:
+                out.setdefault(x, []).append(entry)
+
+    for sl, h in objs.items():
+        ok, r = call(h.get_nodes, metadata=True)
+        if ok and isinstance(r, dict):
+            for x, md in list(r.items()):
+                look(md, (sl, "n", x))
+        ok, r = call(h.get_edges, metadata=True)
+        if ok and isinstance(r, dict):
+            for e, md in list(r.items()):
+                look(md, (sl, "e", e))
+        ok, r = call(h.get_hypergraph_metadata)
+        if ok:
+            look(r, (sl, "h"))
+    return out
+
+
+def probe(objs, probes, what):
+    """probes: (entry or None, metadata dict that the caller holds - it handed it in or got it from a getter).
+    The library stores and returns the metadata dictionary of ONE node / hyperedge / hypergraph by reference (as the
+    unchanged code does); whether a change the caller makes to such a dictionary is seen by the object is left open
+    here - but it may be seen in the metadata of THAT entry only, never in another entry, another object or twice.
+    The change is undone before returning."""
+    keys = []
+    for idx, (entry, d) in enumerate(probes):
+        if isinstance(d, dict):
+            k = f"{JUNK}{idx}"
+            try:
+                for v in list(d.values()):            # values that are themselves lists / dicts: one level deeper
+                    if isinstance(v, list):
+                        v.append(k)
+                    elif isinstance(v, dict):
+                        v[k] = idx
+                d[k] = idx
+                keys.append((k, entry, d))
+            except Exception:
+                pass
+    bad = []
+    ALIAS_COUNT["metadata_dictionaries_probed"] += len(keys)
+    if keys:
+        seen = sightings(objs)
+        for k, entry, d in keys:
+            where = seen.get(k, [])
+            try:
+                wrong = len(where) > 1 or (where and entry is not None and not where[0] == entry)
+            except Exception:
+                wrong = True
+            if wrong:
+                bad.append(f"{what}: a key the caller then put into the metadata dictionary of {entry if entry is not None else 'one entry'} "
+                           f"shows up in the metadata of {where}")
+                break
+        for k, entry, d in keys:
+            d.pop(k, None)
+            for v in list(d.values()):
+                if isinstance(v, list):
+                    while k in v:
+                        v.remove(k)
+                elif isinstance(v, dict):
+                    v.pop(k, None)
+    return bad
+
+
+ENTRY_LABELS = ("hmeta", "qe")
+
+
+def scribble_out(objs, sl, lab, rets):
+    """the caller changes what the queries RETURNED: one key into every returned metadata dictionary (see `probe`), then
+    every returned list / dict / set emptied and refilled with junk. Returns failure texts of the probe; the caller of
+    this function asks all queries again afterwards."""
+    probes = []
+    for item in rets:
+        lbl, r = item[0], item[1]
+        if lbl == "hmeta":
+            probes.append(((sl, "h"), r))
+        elif lbl == "qe":
+            probes.append((item[2], r))
+        elif lbl.startswith("nm."):
+            probes.append(((sl, "n", lab.labels[int(lbl[3:])]), r))
+        elif lbl == "nodesmeta" and isinstance(r, dict):
+            probes += [((sl, "n", x), m) for x, m in r.items()]
+        elif lbl.startswith("emeta.") and isinstance(r, dict):
+            probes += [((sl, "e", e), m) for e, m in r.items()]
+        elif lbl in ("allnm", "allem"):
+            probes += [(None, m) for m in (r.values() if isinstance(r, dict) else r if isinstance(r, list) else [])]
+    bad = probe(objs, probes, "a metadata dictionary returned by a query")
+    for item in rets:
+        if not (item[0] in ENTRY_LABELS or item[0].startswith("nm.")):
+            wipe(item[1])
+            ALIAS_COUNT["caller_changes_to_returned_objects"] += isinstance(item[1], (list, dict, set))
+    return bad
+
+
+def scribble_in(objs, b):
+    """the caller changes the objects it handed to a call, after the call returned (or raised)"""
+    bad = probe(objs, b.mds, f"a metadata dictionary handed to `{b.text}`")
+    for o in b.outer:
+        wipe(o)
+    ALIAS_COUNT["caller_changes_to_handed_in_objects"] += len(b.outer)
+    return bad
+
+
+def apply_impl(objs, lab, c, salt=None, notes=None):
+    """returns ('ok' | 'rej', the command as the object saw it). The second component differs from `c` only for node
+    lists handed over as an unordered collection: they are listed in the order in which that collection yields them.
+    `notes` (a list) receives failure texts of the caller-side changes made after the call."""
     from hypergraphx import DirectedHypergraph
     op = c[0]
+    text = encode(c)
+    b = Builder(lab, salt, text, c[2] if op == "copy" else c[1])
+    ceff = c
+    out = "ok"
     try:
         with contextlib.redirect_stdout(io.StringIO()):
             if op == "new":
                 _, sl, w, hm, nm, es, ws, mds = c
                 kw = {"weighted": bool(w)}
                 if hm is not None:
-                    kw["hypergraph_metadata"] = py_meta(hm)
+                    kw["hypergraph_metadata"] = b.meta(hm, (sl, "h"))
                 if nm is not None:
-                    kw["node_metadata"] = {lab.lab(n): py_meta(md) for n, md in nm}
+                    d = {lab.lab(n): b.meta(md, b.nkey(n)) for n, md in nm}
+                    b.outer.append(d)
+                    kw["node_metadata"] = d
                 if es is not None:
-                    kw["edge_list"] = [lab.edge(e) for e in es]
+                    kw["edge_list"] = b.edges(es, allow_gen=ws is None)
                 if ws is not None:
-                    kw["weights"] = [py_w(x) for x in ws]
+                    kw["weights"] = b.seq([py_w(x) for x in ws])
                 if mds is not None:
-                    kw["edge_metadata"] = [py_meta(m) for m in mds]
+                    kw["edge_metadata"] = b.seq([b.meta(m, b.ekey(es[k]) if es is not None and k < len(es) else None)
+                                                 for k, m in enumerate(mds)])
                 objs[sl] = DirectedHypergraph(**kw)
-                return "ok"
-            if c[1] not in objs:
-                return "rej"                      # no object in that slot (its constructor raised)
-            if op == "copy":
+            elif c[1] not in objs:
+                return "rej", c                   # no object in that slot (its constructor raised)
+            elif op == "copy":
                 objs[c[2]] = objs[c[1]].copy()
-                return "ok"
-            h = objs[c[1]]
-            if op == "addnode":
-                h.add_node(lab.lab(c[2]), py_meta(c[3])) if c[3] is not None else h.add_node(lab.lab(c[2]))
-            elif op == "addnodes":
-                h.add_nodes([lab.lab(n) for n in c[2]])
-            elif op == "addedge":
-                kw = {}
-                if c[3] is not None:
-                    kw["weight"] = py_w(c[3])
-                if c[4] is not None:
-                    kw["metadata"] = py_meta(c[4])
-                h.add_edge(lab.edge(c[2]), **kw)
-            elif op == "addedges":
-                kw = {}
-                if c[3] is not None:
-                    kw["weights"] = [py_w(x) for x in c[3]]
-                if c[4] is not None:
-                    kw["metadata"] = [py_meta(m) for m in c[4]]
-                h.add_edges([lab.edge(e) for e in c[2]], **kw)
-            elif op == "rmedge":
-                h.remove_edge(lab.edge(c[2]))
-            elif op == "rmedges":
-                h.remove_edges([lab.edge(e) for e in c[2]])
-            elif op == "rmnode":
-                h.remove_node(lab.lab(c[2]), keep_edges=bool(c[3]))
-            elif op == "rmnodes":
-                h.remove_nodes([lab.lab(n) for n in c[2]], keep_edges=bool(c[3]))
-            elif op == "setw":
-                h.set_weight(lab.edge(c[2]), py_w(c[3]))
-            elif op == "setnm":
-                h.set_node_metadata(lab.lab(c[2]), py_meta(c[3]))
-            elif op == "setem":
-                h.set_edge_metadata(lab.edge(c[2]), py_meta(c[3]))
-            elif op == "sethm":
-                h.set_hypergraph_metadata(py_meta(c[2]))
-            elif op == "attrh":
-                h.set_attr_to_hypergraph_metadata(ATTR[c[2]], py_val(c[3]))
-            elif op == "attrn":
-                h.set_attr_to_node_metadata(lab.lab(c[2]), ATTR[c[3]], py_val(c[4]))
-            elif op == "attre":
-                h.set_attr_to_edge_metadata(lab.edge(c[2]), ATTR[c[3]], py_val(c[4]))
-            elif op == "deln":
-                h.remove_attr_from_node_metadata(lab.lab(c[2]), ATTR[c[3]])
-            elif op == "dele":
-                h.remove_attr_from_edge_metadata(lab.edge(c[2]), ATTR[c[3]])
-            elif op == "clear":
-                h.clear()
             else:
-                raise AssertionError(op)
-        return "ok"
+                h = objs[c[1]]
+                if op == "addnode":
+                    h.add_node(lab.lab(c[2]), b.meta(c[3], b.nkey(c[2]))) if c[3] is not None else h.add_node(lab.lab(c[2]))
+                elif op == "addnodes":
+                    o, eff = b.nodes(c[2])
+                    ceff = c[:2] + [eff] + c[3:]
+                    h.add_nodes(o)
+                elif op == "addedge":
+                    kw = {}
+                    if c[3] is not None:
+                        kw["weight"] = py_w(c[3])
+                    if c[4] is not None:
+                        kw["metadata"] = b.meta(c[4], b.ekey(c[2]))
+                    h.add_edge(b.edge(c[2]), **kw)
+                elif op == "addedges":
+                    kw = {}
+                    if c[3] is not None:
+                        kw["weights"] = b.seq([py_w(x) for x in c[3]])
+                    if c[4] is not None:
+                        kw["metadata"] = b.seq([b.meta(m, b.ekey(c[2][k]) if k < len(c[2]) else None) for k, m in enumerate(c[4])])
+                    h.add_edges(b.edges(c[2], allow_gen=c[3] is None), **kw)
+                elif op == "rmedge":
+                    h.remove_edge(b.edge(c[2]))
+                elif op == "rmedges":
+                    h.remove_edges(b.edges(c[2], allow_gen=True))
+                elif op == "rmnode":
+                    h.remove_node(lab.lab(c[2]), keep_edges=bool(c[3]))
+                elif op == "rmnodes":
+                    o, eff = b.nodes(c[2])
+                    ceff = c[:2] + [eff] + c[3:]
+                    h.remove_nodes(o, keep_edges=bool(c[3]))
+                elif op == "setw":
+                    h.set_weight(b.edge(c[2]), py_w(c[3]))
+                elif op == "setnm":
+                    h.set_node_metadata(lab.lab(c[2]), b.meta(c[3], b.nkey(c[2])))
+                elif op == "setem":
+                    h.set_edge_metadata(b.edge(c[2]), b.meta(c[3], b.ekey(c[2])))
+                elif op == "sethm":
+                    h.set_hypergraph_metadata(b.meta(c[2], (c[1], "h")))
+                elif op == "attrh":
+                    h.set_attr_to_hypergraph_metadata(ATTR[c[2]], py_val(c[3]))
+                elif op == "attrn":
+                    h.set_attr_to_node_metadata(lab.lab(c[2]), ATTR[c[3]], py_val(c[4]))
+                elif op == "attre":
+                    h.set_attr_to_edge_metadata(b.edge(c[2]), ATTR[c[3]], py_val(c[4]))
+                elif op == "deln":
+                    h.remove_attr_from_node_metadata(lab.lab(c[2]), ATTR[c[3]])
+                elif op == "dele":
+                    h.remove_attr_from_edge_metadata(b.edge(c[2]), ATTR[c[3]])
+                elif op == "clear":
+                    h.clear()
+                else:
+                    raise AssertionError(op)
     except AssertionError:
         raise
     except Exception:
-        return "rej"
+        out = "rej"
+    if salt is not None:
+        bad = scribble_in(objs, b)
+        if notes is not None:
+            notes.extend(bad)
+    return out, ceff
 
 
 def apply_spec(specs, c):
@@ -853,8 +1184,8 @@ def relist(rng, e, scalars):
 
 def gen_history(rng):
     U = rng.randint(3, 6)
-    kind = rng.choice(["int", "int", "shift", "str"])
-    scalars = kind != "str" and rng.random() < 0.5
+    kind = rng.choice(["int", "int", "shift", "str", "str", "big", "rstr", "tup"])
+    scalars = kind in INT_KINDS and rng.random() < 0.5
     weighted = rng.random() < 0.5
     n_ops = rng.choice([1, 2, 3, 5, 8, 12, 16, 20, 25, 30, 40])
     pool = [gen_edge(rng, U) for _ in range(rng.randint(2, 5))]
@@ -875,7 +1206,7 @@ def gen_history(rng):
 
     def an_edge(add=False):
         e = rng.choice(pool) if rng.random() < 0.85 else gen_edge(rng, U)
-        return relist(rng, e, scalars and add)
+        return relist(rng, e, scalars and (add or rng.random() < 0.08))     # a bare node outside add_edge: rejected
 
     cmds = []
     # constructor
@@ -926,7 +1257,7 @@ def gen_history(rng):
             cmds.append(["addedges", sl, es, ws, mds])
         elif r < 0.48:
             e = an_edge(False)
-            if mal and scalars and len(e[0]) == 1:
+            if mal and scalars and not isinstance(e[0], int) and len(e[0]) == 1:
                 e = [e[0][0], e[1]]
             cmds.append(["rmedge", sl, e])
         elif r < 0.51:
@@ -934,7 +1265,10 @@ def gen_history(rng):
         elif r < 0.61:
             cmds.append(["rmnode", sl, rng.randrange(U if not mal else U + 1), rng.random() < 0.5])
         elif r < 0.64:
-            cmds.append(["rmnodes", sl, rng.sample(range(U), rng.randint(0, 2)), rng.random() < 0.5])
+            ns = rng.sample(range(U), rng.randint(0, 3))
+            if ns and (mal or rng.random() < 0.15):           # a node listed twice / an absent node: raises at that element
+                ns.insert(rng.randint(1, len(ns)), rng.choice(ns + [U]))
+            cmds.append(["rmnodes", sl, ns, rng.random() < 0.5])
         elif r < 0.70:
             cmds.append(["addnode", sl, rng.randrange(U), gen_meta(rng)])
         elif r < 0.72:
@@ -970,7 +1304,7 @@ def gen_history(rng):
                 a = rng.choice([0, 1])
                 cmds.append(["copy", a, 1 - a])
                 w_now[1 - a] = w_now.get(a, weighted)
-    return {"U": U, "kind": kind, "cmds": cmds, "pool": pool}
+    return {"U": U, "kind": kind, "cmds": cmds, "pool": pool, "salt": rng.randrange(1 << 30)}
 
 
 # ------------------------------------------------------------------------------------------------------------
@@ -995,6 +1329,7 @@ def run_history(ctx, drv, hist, rng, every=True):
     """returns (problems, stats); problems = list of (kind, what, upto) with kind in violation|disagree"""
     U, cmds = hist["U"], hist["cmds"]
     lab = Labeling(hist["kind"], U)
+    salt = hist.get("salt")
     py_w.flip = 0
     objs, specs = {}, {}
     problems = []
@@ -1018,7 +1353,8 @@ def run_history(ctx, drv, hist, rng, every=True):
             if not ok:
                 before_md = None
         n_edges_before = len(specs[c[1]].edges) if c[0] in ("rmnode",) and c[1] in specs else None
-        a_impl = apply_impl(objs, lab, c)
+        notes = []
+        a_impl, c = apply_impl(objs, lab, c, salt, notes)
         a_spec = apply_spec(specs, c)
         line = encode(c)
         model_lines.append(line)
@@ -1026,6 +1362,8 @@ def run_history(ctx, drv, hist, rng, every=True):
         if a_impl != a_spec:
             problems.append(("violation", f"operation {i} `{line}`: implementation {'raised' if a_impl == 'rej' else 'accepted'}, "
                                           f"the abstract object says {a_spec}", i))
+        for w in notes:
+            problems.append(("violation", f"after operation {i} `{line}`: {w}", i))
         # bookkeeping for the non-triviality rule
         if a_impl == "ok":
             if c[0] in ("rmedge", "rmnode", "rmedges", "rmnodes", "clear"):
@@ -1062,7 +1400,8 @@ def run_history(ctx, drv, hist, rng, every=True):
             if not every and not final and sl not in targets:
                 continue
             filters = pick_filters(rng, final)
-            d_impl = digest_impl(objs[sl], lab, U, filters)
+            rets = [] if salt is not None else None
+            d_impl = digest_impl(objs[sl], lab, U, filters, i, rets)
             d_spec = specs[sl].digest(U, filters)
             for lbl, v in d_spec.items():
                 if d_impl.get(lbl) != v:
@@ -1074,15 +1413,27 @@ def run_history(ctx, drv, hist, rng, every=True):
             model_lines.append(f"dig {sl} {U} " + ",".join(fkey(f) for f in filters))
             model_expect.append(("dig", i, d_impl))
             # one hyperedge asked in a shuffled listing, one absent / reversed
-            for e in ([relist(rng, rng.choice(hist["pool"]), False)] if hist["pool"] else []):
+            for e in ([relist(rng, rng.choice(hist["pool"]), lab.kind in INT_KINDS and rng.random() < 0.15)] if hist["pool"] else []):
                 for ee in (e, [e[1], e[0]]):
-                    a = qe_impl(objs[sl], lab, ee)
+                    a = qe_impl(objs[sl], Builder(lab, salt, f"qe {i} {e_edge(ee)}", sl), ee, rets)
                     b = specs[sl].qe(ee)
                     if a != b:
                         problems.append(("violation", f"after operation {i} `{line}` check_edge|get_weight|get_edge_metadata of "
                                                       f"{e_edge(ee)} (object {sl}): implementation {a}, abstract object {b}", i))
                     model_lines.append(f"qe {sl} {e_edge(ee)}")
                     model_expect.append(("qe", i, a))
+            # aliasing OUT: the caller changes everything the queries returned, then asks again
+            if rets is not None and not problems:
+                for w in scribble_out(objs, sl, lab, rets):
+                    problems.append(("violation", f"after operation {i} `{line}` (object {sl}): {w}", i))
+                again = filters[:4] if i % 4 == 0 else filters[:2]
+                d_again = digest_impl(objs[sl], lab, U, again, i)
+                for lbl, v in d_again.items():
+                    if d_impl.get(lbl) != v:
+                        problems.append(("violation", f"after operation {i} `{line}` (object {sl}): the caller emptied the lists, dicts and sets that "
+                                                      f"the queries had RETURNED and put other entries into them; asked again, query {lbl} answers "
+                                                      f"{v!r} instead of {d_impl.get(lbl)!r} (a returned collection is the object's own table)", i))
+                        break
         if len(problems) >= 3:
             break
     # the Lean model
@@ -1113,13 +1464,14 @@ def equivariance(ctx, hist, rng_seed):
     if any(isinstance(s, int) for c in hist["cmds"] for e in _edges_of(c) for s in e):
         return []
     outs = []
-    for kind in ("int", "shift", "str"):
+    others = [k for k in KINDS if k != "int"]
+    for kind in ("int", others[rng_seed % 5], others[(rng_seed // 5 + 1 + rng_seed % 5) % 5]):
         lab = Labeling(kind, hist["U"])
         py_w.flip = 0
         objs = {}
         tr = []
         for c in hist["cmds"]:
-            tr.append(apply_impl(objs, lab, c))
+            tr.append(apply_impl(objs, lab, c)[0])
         for sl in sorted(objs):
             tr.append(sorted(digest_impl(objs[sl], lab, hist["U"], [None, ("s", 3)]).items()))
         outs.append(tr)
@@ -1202,6 +1554,10 @@ def _check_history(ctx, drv, hist, seed):
     ctx.count("histories_with_removal", int(stats["accepted_removal"]))
     ctx.count("histories_with_reinsertion", int(stats["reinsertion"]))
     ctx.count("labels_" + hist["kind"])
+    for k, v in STYLE_COUNT.items():
+        ctx.extra["collections_" + k] = v
+    for k, v in ALIAS_COUNT.items():
+        ctx.extra[k] = v
     if not problems and seed % 5 == 0:
         problems = equivariance(ctx, hist, seed)
         ctx.count("equivariance_runs")
@@ -1210,7 +1566,7 @@ def _check_history(ctx, drv, hist, seed):
         small, what = shrink(ctx, drv if kind == "disagree" else None, hist, kind, seed)
         if what is None:
             small, what = hist, [p for p in problems if p[0] == kind][0][1]
-        case = {"U": small["U"], "kind": small["kind"], "cmds": small["cmds"], "pool": small["pool"], "seed": seed,
+        case = {"U": small["U"], "kind": small["kind"], "cmds": small["cmds"], "pool": small["pool"], "seed": seed, "salt": small.get("salt"),
                 "lines": [encode(c) for c in small["cmds"]]}
         (ctx.violation if kind == "violation" else ctx.disagree)(case, what)
     return problems
@@ -1248,7 +1604,8 @@ def exhaustive(ctx, drv, maxlen):
         for length in range(1, maxlen + 1):
             for combo in itertools.product(range(len(EXH_ALPHABET)), repeat=length):
                 cmds = [["new", 0, weighted, None, None, None, None, None]] + [_copy.deepcopy(EXH_ALPHABET[i]) for i in combo]
-                hist = {"U": 3, "kind": "int", "cmds": cmds, "pool": [[[0], [1]], [[0, 1], [2]]]}
+                hist = {"U": 3, "kind": KINDS[n % len(KINDS)] if not any(isinstance(x, int) for c in cmds for e in _edges_of(c) for x in e) else
+                        INT_KINDS[n % len(INT_KINDS)], "cmds": cmds, "pool": [[[0], [1]], [[0, 1], [2]]], "salt": n}
                 check_history(ctx, drv, hist, 7 * n + 1)
                 n += 1
                 if ctx.too_many(3):
@@ -1262,7 +1619,7 @@ def exhaustive(ctx, drv, maxlen):
 
 def run(ctx):
     drv = ctx.driver() if ctx.model_available else None
-    n = ctx.scale(230, 6000)
+    n = ctx.scale(200, 5000)
     for i in range(n):
         hist = gen_history(ctx.rng)
         check_history(ctx, drv, hist, ctx.rng.randrange(1 << 30))
@@ -1282,5 +1639,5 @@ def run(ctx):
 
 def replay(ctx, case):
     drv = ctx.driver() if ctx.model_available else None
-    hist = {"U": case["U"], "kind": case["kind"], "cmds": case["cmds"], "pool": case.get("pool", [])}
+    hist = {"U": case["U"], "kind": case["kind"], "cmds": case["cmds"], "pool": case.get("pool", []), "salt": case.get("salt")}
     check_history(ctx, drv, hist, case.get("seed", 0))
